@@ -21,7 +21,6 @@
 package zapcore
 
 import (
-	"bytes"
 	"errors"
 	"fmt"
 )
@@ -171,10 +170,24 @@ func (l *Level) UnmarshalText(text []byte) error {
 	if l == nil {
 		return errUnmarshalNilLevel
 	}
-	if !l.unmarshalText(text) && !l.unmarshalText(bytes.ToLower(text)) {
+	if !l.unmarshalText(text) && !l.unmarshalText(lowerASCII(text)) {
 		return fmt.Errorf("unrecognized level: %q", text)
 	}
 	return nil
+}
+
+// lowerASCII lower-cases the ASCII letters of text. Level names are ASCII;
+// Unicode-aware lower-casing would map some non-ASCII runes (for example
+// U+0130) into the ASCII range and accept text that isn't a level name.
+func lowerASCII(text []byte) []byte {
+	lower := make([]byte, len(text))
+	for i, c := range text {
+		if 'A' <= c && c <= 'Z' {
+			c += 'a' - 'A'
+		}
+		lower[i] = c
+	}
+	return lower
 }
 
 func (l *Level) unmarshalText(text []byte) bool {
